@@ -5,8 +5,10 @@
    Base/Mat.v (matrices / Kronecker products / sums over big-endian bit-list indices),
    Proofs/BackendsSpec.v (wf_layer, layer_items, layers_sem). R ranges over all commutative rings. *)
 From Coq Require Import List Bool Arith Ring ZArith.
-Require Import QG.Base.Res QG.Base.State QG.Base.Mat QG.Base.ZI QG.Model.Backends.
+Require Import QG.Base.Res QG.Base.State QG.Base.Mat QG.Base.ZI QG.Model.Backends QG.Model.Optimizer QG.Model.Sparse.
 Require Import QG.Proofs.BackendsSpec QG.Proofs.BackendsKron QG.Proofs.BackendsContract QG.Proofs.BackendsEff QG.Proofs.BackendsOnes.
+Require Import QG.Proofs.BackendsEffFull QG.Proofs.BackendsBinary QG.Proofs.OptimizerSem.
+Require QG.Props.C02.
 Import ListNotations.
 
 Section Statements.
@@ -45,18 +47,21 @@ Definition kron_step_stmt : Prop := forall w1 w2 A B v x,
 Definition std_spec_stmt : Prop := forall n ls psi, 1 <= n -> ls <> [] -> Forall (wf_layer n) ls ->
   exists out, std R rI radd rmul n ls psi = Ok (OutVec out) /\ state_eq n out (layers_sem ls psi).
 
-(* number of operands EfficientBackend._chunk_list produces for a layer of n entries *)
-Definition eff_nchunks (n mn op : nat) : nat :=
-  let q := n / op in let r := n mod op in
-  if r =? 0 then q else if r <? mn then q else q + 1.
 (* EfficientBackend, full strength: every (min, opt) >= 1 for which the code's assertion 2 * nr_of_matrices <= 26 holds
-   in the many-chunk regime (4 <= n and 2*opt <= n; the other regimes use 0 or 2 operands) *)
+   in the many-chunk regime (4 <= n and 2*opt <= n; the other regimes use 0 or 2 operands).  eff_nchunks n mn op
+   (Proofs/BackendsEffFull.v, unfolded in C01_eff_nchunks_def) is the exact number of operands _chunk_list produces
+   for a layer of n entries (C01_chunk_count). *)
 Definition eff_spec_full : Prop := forall n mn op ls psi,
   1 <= n -> 1 <= mn -> 1 <= op -> ls <> [] -> Forall (wf_layer n) ls ->
   (4 <= n -> 2 * op <= n -> 2 * eff_nchunks n mn op <= 26) ->
   exists out, eff R rI radd rmul n mn op ls psi = Ok out /\ state_eq n out (layers_sem ls psi).
-(* proved: the same with the simpler sufficient bound "at most n/opt + 1 chunks" *)
-Definition eff_spec_partial_stmt : Prop := forall n mn op ls psi,
+(* the converse: the hypothesis is exactly the code's assertion (backend.py:180), which fires otherwise *)
+Definition eff_assert_stmt : Prop := forall n mn op ls psi,
+  4 <= n -> 1 <= op -> 2 * op <= n -> ls <> [] -> Forall (wf_layer n) ls ->
+  26 < 2 * eff_nchunks n mn op ->
+  eff R rI radd rmul n mn op ls psi = Err AssertionError.
+(* corollary kept from the earlier development: the simpler sufficient bound "at most n/opt + 1 chunks" *)
+Definition eff_spec_suff_stmt : Prop := forall n mn op ls psi,
   1 <= n -> 1 <= mn -> 1 <= op -> ls <> [] -> Forall (wf_layer n) ls ->
   (4 <= n -> 2 * op <= n -> 2 * (n / op + 1) <= 26) ->
   exists out, eff R rI radd rmul n mn op ls psi = Ok out /\ state_eq n out (layers_sem ls psi).
@@ -69,6 +74,41 @@ Definition ones_spec_stmt : Prop := forall (is_id : entry R -> bool) n ls psi,
   1 <= n -> ls <> [] -> Forall (wf_layer n) ls ->
   Forall (fun l => length (filter (fun e => negb (isOne R e)) l) <= 26) ls ->
   exists out, ones R rI radd rmul is_id n ls psi = Ok out /\ state_eq n out (layers_sem ls psi).
+
+(* ---- the index-based backend on layer-shaped input.  items_of_layers (Proofs/BackendsBinary.v) lists, layer by layer,
+   (M2 A, [q]) for a 2x2 entry at slot q and (M4 G, [q; q+1]) for a 4x4 block on slots q, q+1 (placeholder on either
+   side); den / wf_in / optimize / bin_statevector are C02's vocabulary and models. *)
+Notation mitem := (mat R * list Z)%type.
+Notation den := (den R rO rI).
+Notation optimize_R := (optimize (mat R) (mmul R radd rmul) (mkron R rmul) (mid2 R rO rI) (mid4 R rO rI)).
+(* (a) feeding the same matrices item by item to the item semantics IS the layered specification, the items are
+   well-formed optimizer/BinaryBackend input, and there is at least one *)
+Definition items_spec_stmt : Prop := forall n ls,
+  Forall (wf_layer n) ls ->
+  (forall psi, sem R radd rmul (map den (items_of_layers R ls)) psi = layers_sem ls psi) /\
+  Forall (wf_in R n) (items_of_layers R ls) /\
+  Forall (wf_item R n) (concat (map (layer_items R 0) ls)) /\
+  (1 <= n -> ls <> [] -> items_of_layers R ls <> []).
+(* (b) every level of C02's gate-fusion optimizer keeps the layered specification *)
+Definition optimize_layers_stmt : Prop := forall level n ls, level <= 4 -> Forall (wf_layer n) ls ->
+  exists out, optimize_R level n (items_of_layers R ls) = Ok out /\
+    length out <= length (items_of_layers R ls) /\ Forall (wf_item R n) (map den out) /\
+    forall psi, state_eq n (sem R radd rmul (map den out) psi) (layers_sem ls psi).
+(* (c) the hypothesis about BinaryBackend's operator construction = C02_backend_full at this ring *)
+Definition bin_backend_correct_stmt (entry_mat : mat R -> N -> N -> R) : Prop :=
+  forall (n : nat) (items : list mitem) (psi : State.state R),
+  items <> [] -> Forall (wf_in R n) items ->
+  exists out, bin_statevector R rO radd rmul (mat R) (mmul R radd rmul) (mkron R rmul) (mid2 R rO rI) (mid4 R rO rI)
+                entry_mat n items psi = Ok out /\
+    state_eq n out (sem R radd rmul (map den items) psi).
+(* binary_agrees: BinaryBackend (optimisation at level 4 included) on the items of a layer list returns the layered
+   specification, hence the same vector as StandardBackend (likewise for the other two, by C01_eff_spec/C01_ones_spec) *)
+Definition binary_agrees_stmt (entry_mat : mat R -> N -> N -> R) : Prop := forall n ls psi,
+  1 <= n -> ls <> [] -> Forall (wf_layer n) ls ->
+  exists o2, bin_statevector R rO radd rmul (mat R) (mmul R radd rmul) (mkron R rmul) (mid2 R rO rI) (mid4 R rO rI)
+               entry_mat n (items_of_layers R ls) psi = Ok o2 /\
+    state_eq n o2 (layers_sem ls psi) /\
+    exists o1, std R rI radd rmul n ls psi = Ok (OutVec o1) /\ state_eq n o1 o2.
 End Statements.
 
 Theorem C01_spec_linear : forall R rO rI radd rmul rsub ropp, ring_theory rO rI radd rmul rsub ropp eq ->
@@ -96,10 +136,33 @@ Theorem C01_std_spec : forall R rO rI radd rmul rsub ropp, ring_theory rO rI rad
 Proof. intros R rO rI radd rmul rsub ropp Rth n ls psi. exact (std_spec R rO rI radd rmul rsub ropp Rth n ls psi). Qed.
 Print Assumptions C01_std_spec.
 
-Theorem C01_eff_spec_partial : forall R rO rI radd rmul rsub ropp, ring_theory rO rI radd rmul rsub ropp eq ->
-  eff_spec_partial_stmt R rI radd rmul.
+Theorem C01_eff_nchunks_def : forall n mn op, eff_nchunks n mn op =
+  (let q := n / op in let r := n mod op in
+   let cnt := if r =? 0 then q else q + 1 in      (* len(range(0, n, op)) *)
+   let last := if r =? 0 then op else r in        (* len(chunks[-1]) *)
+   if last <? mn then cnt - 1 else cnt).          (* merged into chunks[-2] when shorter than min_chunk_size *)
+Proof. reflexivity. Qed.
+
+(* _chunk_list returns exactly eff_nchunks (len l) mn opt chunks, for every list *)
+Theorem C01_chunk_count : forall (A : Type) (l : list A) mn opt cs, 1 <= opt -> 2 * opt <= length l ->
+  chunk_list l mn opt = Ok cs -> length cs = eff_nchunks (length l) mn opt.
+Proof. intros A l mn opt cs. exact (chunk_list_count l mn opt cs). Qed.
+Print Assumptions C01_chunk_count.
+
+Theorem C01_eff_spec : forall R rO rI radd rmul rsub ropp, ring_theory rO rI radd rmul rsub ropp eq ->
+  eff_spec_full R rI radd rmul.
+Proof. intros R rO rI radd rmul rsub ropp Rth n mn op ls psi. exact (eff_spec_exact R rO rI radd rmul rsub ropp Rth n mn op ls psi). Qed.
+Print Assumptions C01_eff_spec.
+
+Theorem C01_eff_assertion_exact : forall R rO rI radd rmul rsub ropp, ring_theory rO rI radd rmul rsub ropp eq ->
+  eff_assert_stmt R rI radd rmul.
+Proof. intros R rO rI radd rmul rsub ropp Rth n mn op ls psi. exact (eff_assert_exact R rO rI radd rmul rsub ropp Rth n mn op ls psi). Qed.
+Print Assumptions C01_eff_assertion_exact.
+
+Theorem C01_eff_spec_suff : forall R rO rI radd rmul rsub ropp, ring_theory rO rI radd rmul rsub ropp eq ->
+  eff_spec_suff_stmt R rI radd rmul.
 Proof. intros R rO rI radd rmul rsub ropp Rth n mn op ls psi. exact (eff_spec R rO rI radd rmul rsub ropp Rth n mn op ls psi). Qed.
-Print Assumptions C01_eff_spec_partial.
+Print Assumptions C01_eff_spec_suff.
 
 Theorem C01_ones_spec : forall R rO rI radd rmul rsub ropp, ring_theory rO rI radd rmul rsub ropp eq ->
   ones_spec_stmt R rO rI radd rmul.
@@ -111,6 +174,45 @@ Theorem C01_chunk_list : forall (A : Type) (l : list A) mn opt, 1 <= opt -> 2 * 
   exists cs, chunk_list l mn opt = Ok cs /\ concat cs = l /\ Forall (fun c => c <> []) cs /\ length cs <= length l / opt + 1.
 Proof. intros A l mn opt. exact (chunk_list_spec l mn opt). Qed.
 Print Assumptions C01_chunk_list.
+
+(* ---- index-based backend ---- *)
+(* items_of_layers unfolded: what a caller of BinaryBackend.statevector passes for a layer list *)
+Theorem C01_items_of_layers_def : forall R (ls : list (list (entry R))),
+  items_of_layers R ls = concat (map (layer_mitems R 0) ls) /\
+  (forall q, layer_mitems R q [] = []) /\
+  (forall q A r, layer_mitems R q (En2 A :: r) = (M2 R A, [Z.of_nat q]) :: layer_mitems R (S q) r) /\
+  (forall q G r, layer_mitems R q (En4 G :: EnOne :: r) = (M4 R G, [Z.of_nat q; Z.of_nat (S q)]) :: layer_mitems R (S (S q)) r) /\
+  (forall q G r, layer_mitems R q (EnOne :: En4 G :: r) = (M4 R G, [Z.of_nat q; Z.of_nat (S q)]) :: layer_mitems R (S (S q)) r).
+Proof. intros R ls. repeat split. Qed.
+
+Theorem C01_items_spec : forall R rO rI radd rmul rsub ropp, ring_theory rO rI radd rmul rsub ropp eq ->
+  items_spec_stmt R rO rI radd rmul.
+Proof. intros R rO rI radd rmul rsub ropp Rth n ls. exact (items_spec R rO rI radd rmul n ls). Qed.
+Print Assumptions C01_items_spec.
+
+Theorem C01_optimize_layers : forall R rO rI radd rmul rsub ropp, ring_theory rO rI radd rmul rsub ropp eq ->
+  optimize_layers_stmt R rO rI radd rmul.
+Proof. intros R rO rI radd rmul rsub ropp Rth level n ls. exact (optimize_layers R rO rI radd rmul rsub ropp Rth level n ls). Qed.
+Print Assumptions C01_optimize_layers.
+
+(* binary_agrees, with the correctness of BinaryBackend's sparse operators as the explicit premise *)
+Theorem C01_binary_agrees_hyp : forall R rO rI radd rmul rsub ropp, ring_theory rO rI radd rmul rsub ropp eq ->
+  forall entry_mat, bin_backend_correct_stmt R rO rI radd rmul entry_mat -> binary_agrees_stmt R rO rI radd rmul entry_mat.
+Proof.
+  intros R rO rI radd rmul rsub ropp Rth entry_mat Hbin n ls psi.
+  exact (binary_agrees_std R rO rI radd rmul rsub ropp Rth entry_mat Hbin n ls psi).
+Qed.
+Print Assumptions C01_binary_agrees_hyp.
+
+(* the premise is literally C02's open statement C02_backend_full (Props/C02.v), with C02's entry reader *)
+Theorem C01_binary_agrees : C02.C02_backend_full ->
+  forall R rO rI radd rmul rsub ropp, ring_theory rO rI radd rmul rsub ropp eq ->
+  binary_agrees_stmt R rO rI radd rmul (C02.entry_mat R rO).
+Proof.
+  intros Hfull R rO rI radd rmul rsub ropp Rth. apply (C01_binary_agrees_hyp R rO rI radd rmul rsub ropp Rth).
+  intros n items psi. exact (Hfull R rO rI radd rmul rsub ropp Rth n items psi).
+Qed.
+Print Assumptions C01_binary_agrees.
 
 (* Non-vacuity: a concrete 4-qubit layer list over the Gaussian integers is well-formed, and the three models compute
    the same vector as the slot semantics on it. *)
@@ -154,3 +256,22 @@ Example C01_ones_assertion_needed :
   Forall (wf_layer ZI 27) [repeat (En2 exH) 27] /\
   is_ok (ones ZI zi1 ziadd zimul exIsId 27 [repeat (En2 exH) 27] exPsi) = false.
 Proof. split; [repeat constructor | vm_compute; reflexivity]. Qed.
+
+(* the exact operand count on the docstring example of _chunk_list (7 items, min 2, opt 3 -> 2 chunks), on a setting
+   where a full-size last chunk is merged (opt < min), and at the 13/14-operand boundary of the assertion *)
+Example C01_eff_nchunks_examples :
+  (eff_nchunks 7 2 3 = 2 /\ eff_nchunks 8 3 2 = 3 /\ eff_nchunks 27 2 2 = 13 /\ eff_nchunks 27 1 2 = 14 /\
+   rmap (map (@length nat)) (chunk_list (seq 0 8) 3 2) = Ok [2; 2; 4])%nat.
+Proof. vm_compute. repeat split; reflexivity. Qed.
+
+(* the many-chunk regime with a merged full-size last chunk (n = 4, min 3, opt 2: slices [2;2], the last one is shorter
+   than min, one operand remains), and the index-based backend model (C02's Model/Sparse.v) on the items of the same
+   layers: both equal the slot semantics *)
+Example C01_example_eff_binary :
+  let spec := map (layers_sem ZI ziadd zimul exLayers exPsi) (all_bits 4) in
+  eff_nchunks 4 3 2 = 1%nat /\
+  (match eff ZI zi1 ziadd zimul 4 3 2 exLayers exPsi with Ok s => map s (all_bits 4) = spec | _ => False end) /\
+  (match bin_statevector ZI zi0 ziadd zimul (mat ZI) (mmul ZI ziadd zimul) (mkron ZI zimul) (mid2 ZI zi0 zi1) (mid4 ZI zi0 zi1)
+           (C02.entry_mat ZI zi0) 4 (items_of_layers ZI exLayers) exPsi with
+   | Ok s => map s (all_bits 4) = spec | _ => False end).
+Proof. vm_compute. repeat split; reflexivity. Qed.
